@@ -53,7 +53,7 @@ MULTITASK = ["smt", "active_mt", "uts"]
 # MR.Q continued on a replay buffer that already holds more than 100 000 transitions (a non-initial state far beyond what
 # the exhaustive part can reach; one deterministic deep state)
 VARIANTS = {"mrq@ls0": "mrq", "active_mt@ties": "active_mt", "mrq@full": "mrq", "a2c@partial": "a2c", "td3@f64box": "td3", "sac@f64box": "sac",
-            "mrq@prefilled": "mrq"}
+            "mrq@prefilled": "mrq", "ddpg@gs3": "ddpg"}  # ddpg@gs3: three gradient steps per environment step
 POLLUTABLE = {"ddpg", "td3", "td3_lap", "sac", "td7", "mrq", "pets"}  # continuous Box actions: an alt-bounds run exists
 ROUTINES = OFF_POLICY + EPISODIC + VECTOR + TABULAR + ["cmaes"] + MULTITASK + list(VARIANTS)
 
@@ -62,7 +62,7 @@ ENTRY.update(ac="train_ac", ddqn_per="train_ddqn_per")
 
 FAMILIES = {
     "dqn-family": ["dqn", "nature_dqn", "ddqn", "ddqn_per"],
-    "ddpg-td3": ["ddpg", "td3", "td3_lap", "td3@f64box"],
+    "ddpg-td3": ["ddpg", "td3", "td3_lap", "td3@f64box", "ddpg@gs3"],
     "sac": ["sac", "sac@f64box"],
     "td7": ["td7"],
     "mrq": ["mrq", "mrq@ls0", "mrq@full", "mrq@prefilled"],
@@ -380,6 +380,8 @@ def run_off_policy(name, sid, seed, net_seed, alt_bounds=False):
                buffer_size=6, extra={"logger": lg}, width=3)
     if name == "mrq":
         cfg.update(learning_starts=0 if variant == "mrq@ls0" else 4, buffer_size=7 if variant == "mrq@full" else 12)
+    if variant == "ddpg@gs3":
+        cfg.update(gradient_steps=3)
     if variant == "mrq@prefilled":
         cfg.update(replay_buffer=_prefilled_subtrajectory_buffer(100_200), learning_starts=2)
     if name == "pets":
@@ -651,10 +653,23 @@ def perturbed(glob=0, shift=0.0, vclock=False):
             return a
 
     _rb.np = _Np()
+    # the monotonic / performance clocks: a run must not depend on how fast the machine is.  Both run at a rate that depends
+    # on the perturbation (1 ms per reading for odd, 80 ms per reading for even values)
+    real_mono, real_perf = _time.monotonic, _time.perf_counter
+    ticks = [0]
+    rate = 1e-3 if glob % 2 else 8e-2
+
+    def mono():
+        ticks[0] += 1
+        return 5000.0 + rate * ticks[0]
+
+    _time.monotonic = mono
+    _time.perf_counter = mono
     try:
         yield
     finally:
         _time.time, _time.time_ns = real_time, real_ns
+        _time.monotonic, _time.perf_counter = real_mono, real_perf
         _rb.np = real_np
 
 
